@@ -205,6 +205,8 @@ def r1_sinks(ctx) -> None:
                     if fi.name == gname:
                         continue  # an implementation referring to its base implementation
                     gs = atomic_guards(guards_at(prog, fi, n))
+                    if q in H and _gate_dominates(prog, fi, n, pred_name):
+                        gs = gs + [(f"self.{pred_name}()", True)]
                     if q in H and (f"self.{pred_name}()", True) in gs:
                         r.ok("C16.R1", q, f"call of {gname} dominated by self.{pred_name}() == True, inside the gate function {gate.name}{'' if q == gate.qual else ' (private helper only it calls)'}", loc)
                     elif q in H:
@@ -287,6 +289,14 @@ def r1_sinks(ctx) -> None:
                         rets = [x for x in walk_no_nested(hm.node) if isinstance(x, ast.Return)]
                         if rets and all(want_g in atomic_guards(guards_at(prog, hm, x)) for x in rets):
                             via = hm
+                if q in Hv and want_g not in gs and _gate_dominates(prog, fi, n, "_external_sources_allowed"):
+                    gs = gs + [want_g]
+                if via is None and isinstance(rhs, ast.Call) and call_name(rhs).startswith("self._") and call_name(rhs).count(".") == 1:
+                    hm2 = prog.lookup_method(gv.cls.qual, call_name(rhs)[5:])
+                    if hm2 is not None and hm2.qual in Hv:
+                        rets2 = [x for x in walk_no_nested(hm2.node) if isinstance(x, ast.Return)]
+                        if rets2 and all(_gate_dominates(prog, hm2, x, "_external_sources_allowed") for x in rets2):
+                            via = hm2
                 if q in Hv and want_g in gs:
                     r.ok("C16.R1", q, "cache written only after the gate", f"{fi.module.relpath}:{n.lineno}")
                 elif q in Hv and via is not None:
@@ -396,6 +406,39 @@ def from_yaml_outcomes(ctx) -> list[str]:
             bad.append(f"{case}: from_dict receives allow_template_vars={kw.get('allow_template_vars', '<missing>')!r}, allow_external_sources={kw.get('allow_external_sources', '<missing>')!r}")
     ctx._c16_from_yaml = bad
     return bad
+
+
+def _gate_dominates(prog, fi: FuncInfo, node: ast.AST, pred_name: str, depth: int = 0) -> bool:
+    """``node`` runs only after self.<pred_name>() answered yes: it lies under that guard, or every path to it passes a call
+    of a helper of the class that returns normally only after the predicate answered yes (it raises otherwise)."""
+    want = (f"self.{pred_name}()", True)
+    if want in atomic_guards(guards_at(prog, fi, node)):
+        return True
+    if depth > 1 or fi.cls is None:
+        return False
+    cfg = cfg_of(fi)
+    at_nodes = [n_ for n_ in cfg.node_of_expr(node, prog.parent) if cfg.is_reachable(n_)] if not isinstance(node, ast.stmt) else [n_ for n_ in cfg.nodes_of(node) if cfg.is_reachable(n_)]
+    if not at_nodes:
+        return False
+    for c in walk_no_nested(fi.node):
+        if not (isinstance(c, ast.Call) and call_name(c).startswith("self._") and call_name(c).count(".") == 1):
+            continue
+        h = prog.lookup_method(fi.cls.qual, call_name(c)[5:])
+        if h is None or h is fi or h.name == pred_name:
+            continue
+        body = h.node.body
+        last = body[-1] if body else None
+        rets = [x for x in walk_no_nested(h.node) if isinstance(x, ast.Return)]
+        ends_closed = isinstance(last, (ast.Raise, ast.Return))
+        if not (ends_closed and rets and all(_gate_dominates(prog, h, x, pred_name, depth + 1) for x in rets)) and not (
+                ends_closed and not rets and isinstance(last, ast.Raise)):
+            continue
+        if not rets:
+            continue
+        cn = cfg.node_of_expr(c, prog.parent)
+        if cn and not any(n_ in cn for n_ in at_nodes) and all(cfg.must_pass(n_, cn) for n_ in at_nodes):
+            return True
+    return False
 
 
 def resolver_outcome(ctx):
